@@ -109,6 +109,8 @@ def key_role(ctx, L, rule="R-KEY-ROLE"):
             seen.add((table, key))
             n += 1
             src = key[1] if key[0] == "iter" else None
+            if src is None and key[0] == "sub" and key[1][0] == "call" and key[1][1] in (("glob", "list"), ("glob", "sorted")):
+                src = key[1]      # an element of a snapshot of the keys, picked by index (index loop over the snapshot)
             if src is not None and src[0] == "call" and src[1] == ("glob", "list") and src[2]:
                 src = src[2][0]
             if src is not None and src[0] == "call" and src[1][0] == "attr" and src[1][2] == "keys":
